@@ -1,12 +1,12 @@
 from props import _writer
 SPEC = _writer.spec("C30", "Page resource names chosen by the user cannot break the page", "W_serializer.rs")
-SPEC["only_obligations"] = ["name_token"]
+SPEC["only_obligations"] = ["name_token_1", "name_token"]
 SPEC["outside_claim"] = [
     "which API entry points accept names (Page / forms plumbing) and the resource dictionaries they end up in",
     "name operands in content streams (graphics/ops.rs serialize_ops: formatted with write!/format!, not assembled)",
     "names longer than 2 characters, non-ASCII names; reading back with the library's lexer or qpdf",
 ]
 MANIFEST = dict(
-    text="Bounded model checking of the Name arm of the writer's object serializer (the one place every user-chosen resource/field name passes through on its way into a dictionary): for every 2-character ASCII name the emitted token must be a single ISO 32000-1 7.3.5 name token that reads back as the same name. It is not, for names containing white-space, delimiters, '#' or control characters (written raw): listed known finding C30-K1; every other name is decided.",
+    text="Bounded model checking of the Name arm of the writer's object serializer (the one place every user-chosen resource/field name passes through on its way into a dictionary): for every 1- and 2-character ASCII name the emitted token must be a single ISO 32000-1 7.3.5 name token that reads back as the same name. It is not, for names containing white-space, delimiters, '#' or control characters (written raw): listed known finding C30-K1; every other name is decided.",
     note="Kernel-level: only the serializer's Name arm. Outside: API plumbing, content-stream name operands, longer / non-ASCII names.",
 )
